@@ -248,6 +248,7 @@ static void e2eSession(vh::Rng& r, int integ) {
     int guard = 0;
     while (I.getTime() < tEnd && guard++ < 20000) {
         Integrator::SuccessfulStepStatus st = I.stepTo(std::min(rep, tEnd), Inf);
+        if (std::getenv("C22_DEBUG")) std::fprintf(stderr, "call report %.12f -> %d t=%.12f adv=%.12f interp=%d\n", std::min(rep, tEnd), (int)st, I.getTime(), I.getAdvancedTime(), (int)I.isStateInterpolated());
         if (st == Integrator::ReachedReportTime && I.getTime() >= std::min(rep, tEnd)) { if (rep >= tEnd) break; rep += dtr; }
         if (st != Integrator::ReachedEventTrigger) continue;
         Vec2 w = I.getEventWindow();
@@ -287,7 +288,9 @@ static void e2eSession(vh::Rng& r, int integ) {
         if (r.below(3) == 0) I.reinitialize(Stage::Velocity, false);     // as after a handler that touched the state
     }
     // none skipped / only real crossings: compare with the analytic crossing list
-    const double tDone = I.getAdvancedTime();
+    // only crossings up to the last RETURNED time must have been reported: the advanced state may already sit at the tHigh
+    // of a localised event that has not been handed out yet (an interpolated report was served first)
+    const double tDone = I.getTime();
     double missed = 0, spurious = 0; int ncross = 0;
     std::vector<std::vector<bool>> used(wins.size());
     for (size_t k2 = 0; k2 < wins.size(); ++k2) used[k2].assign(wins[k2].idx.size(), false);
@@ -302,7 +305,7 @@ static void e2eSession(vh::Rng& r, int integ) {
                 for (size_t i = 0; i < wins[k2].idx.size(); ++i)
                     if (wins[k2].idx[i] == j && !used[k2][i] && wins[k2].lo - slack <= c.first && c.first <= wins[k2].hi + slack
                         && wins[k2].trans[i] == dirBit) { used[k2][i] = true; found = true; break; }
-            if (!found) missed += 1;
+            if (!found) { missed += 1; std::fprintf(stderr, "MISSED witness %d (kind %d a=%.17g b=%.17g mask %d) crossing at %.17g dir %d, integrated to %.17g\n", j, ws[j].kind, ws[j].a, ws[j].b, ws[j].mask, c.first, c.second, tDone); }
         }
     }
     for (size_t k2 = 0; k2 < wins.size(); ++k2) for (size_t i = 0; i < used[k2].size(); ++i) if (!used[k2][i]) spurious += 1;
